@@ -268,6 +268,9 @@ func judge15(e *Entry, ops []Op, res []*OpResult, evs [][]sched.Event) (sig, det
 				}
 				if err.todo {
 					stats["todo-errors-checked"]++
+					if err.msg != "parameter todo" && lineEndsWith(r.Err, "parameter todo") && !strings.HasSuffix(err.msg, "parameter todo") {
+						return "todo-parameter-wrong-message", fmt.Sprintf("%s: the given message %q must be reported, not the default: %s", at, err.msg, r.Err), stats
+					}
 					if !lineEndsWith(r.Err, err.msg) {
 						return "todo-parameter-wrong-message", fmt.Sprintf("%s: the error must end with the documented message %q, got: %s", at, err.msg, r.Err), stats
 					}
